@@ -436,7 +436,23 @@ L11 = L9 + ["\x1b[1;4mU\x1b[22mV\x1b[0m", "\x1b]8;;http://a\x1b\\L\x1b]8;;\x1b\\
 # OSC 8 lines as other programs write them: empty parameter field or an id=... parameter, ST terminated
 LK = ["ab"] + ["\x1b]8;%s;%s\x1b\\L\x1b]8;;\x1b\\" % ("" if i % 2 == 0 else "id=9", u)
                for i, u in enumerate(LINKS_MID + LINKS_ALIKE)]
-ALPHABETS = {"L5": L5, "L9": L9, "L11": L11, "LK": LK}
+# Foreign hyperlink lines (not what rich writes): id-less links to two targets, one id used for two
+# targets, a link left open at the end of the line, a close without an open, two links on one line
+# without a close in between.  ST terminated, no SGR inside: the decoder-only part FD covers the rest.
+U1, U2 = "http://a/1", "http://b/2"
+ST, BEL = "\x1b\\", "\x07"
+
+
+def _osc8(params, url, term=ST):
+    return "\x1b]8;%s;%s%s" % (params, url, term)
+
+
+LF = ["ab",
+      _osc8("", U1) + "L" + _osc8("", ""), _osc8("", U2) + "M" + _osc8("", ""),
+      _osc8("id=1", U1) + "N" + _osc8("", ""), _osc8("id=1", U2) + "P" + _osc8("", ""),
+      _osc8("", U1) + "Q", _osc8("", "") + "R",
+      _osc8("", U1) + "S" + _osc8("", U2) + "T" + _osc8("", "")]
+ALPHABETS = {"L5": L5, "L9": L9, "L11": L11, "LK": LK, "LF": LF}
 
 
 def streams(alpha, minlines, maxlines):
@@ -479,6 +495,8 @@ def stream_sets(tier):
             ("E", "live", "L5", 1, 2, 3, 0, ["oeo", "eoe", "ooe", "eeo"]),
             ("K", "bare", "LK", 1, 1, 2, 1, ["o"]),
             ("Kl", "live", "LK", 1, 1, 2, 0, ["o"]),
+            ("LF", "bare", "LF", 1, 2, 2, 1, ["o"]),
+            ("LFl", "live", "LF", 2, 2, 2, 0, ["o"]),
         ]
     return [
         ("A", "bare", "L5", 1, 3, 4, 2, ["o"]),
@@ -493,6 +511,9 @@ def stream_sets(tier):
         ("K", "bare", "LK", 1, 1, 3, 1, ["o"]),
         ("K2", "bare", "LK", 2, 2, 2, 1, ["o"]),
         ("Kl", "live", "LK", 1, 1, 2, 1, ["o", "e"]),
+        ("LF", "bare", "LF", 1, 2, 3, 1, ["o"]),
+        ("LF3", "bare", "LF", 3, 3, 2, 0, ["o"]),
+        ("LFl", "live", "LF", 1, 2, 2, 1, ["o", "e"]),
     ]
 
 
@@ -524,8 +545,17 @@ def _prep(text):
     return p
 
 
+def _link_clause(got, want):
+    """only the hyperlink differs: which way"""
+    if want is None:
+        return "link-added"
+    return "link-lost" if got is None else "link-wrong"
+
+
 def _cls(text):
     """coarse class of the text an operation had to emit (for finding keys)"""
+    if ESC + "]" in text and "\x07" in text:
+        return "osc-bel"
     if ESC in text:
         return "ansi"
     if "[" in text:
@@ -601,8 +631,11 @@ def _judge(model, got_cells, got_breaks):
         return ("chars", "printed %r, written and due %r" % ("".join(gch), "".join(wch)))
     for i, ((c, gv), (_, wv)) in enumerate(zip(got_cells, want)):
         if gv != wv:
-            return ("style-added" if wv == NULLVIS else "style-lost",
-                    "character %d %r shows %r, the stream says %r" % (i, c, gv, wv))
+            if gv[:3] == wv[:3]:
+                clause = _link_clause(gv[3], wv[3])
+            else:
+                clause = "style-added" if wv == NULLVIS else "style-lost"
+            return (clause, "character %d %r shows %r, the stream says %r" % (i, c, gv, wv))
     lb, fb = model.line_breaks, model.flush_breaks
     for pos in set(lb) | set(got_breaks):
         g = got_breaks.get(pos, 0)
@@ -863,12 +896,129 @@ def _part_fp(sh, tier, res):
             break
 
 
+# =========================================================================== part 3
+# Foreign ANSI through ONE decoder instance.  A stream is a sequence of segments
+#   [open] inner [close] sep
+# open  : nothing | OSC 8 with params "" / id=1 / id=2 / k=v to target U1 / U2, ST terminated
+#         | BEL terminated ("" U1, "" U2, id=1 U2)
+# inner : "x" | "x\ny" (the link spans a line end) | x SGR-1 y | x SGR-0 y (reset inside the link)
+# close : nothing | OSC 8 ;; ST | OSC 8 ;; BEL | OSC 8 ;id=1; ST
+# sep   : "" | newline | "z" newline
+# so a stream holds up to three hyperlinks with equal or different params and targets, re-opened
+# links, closes without an open, links left open over line ends -- everything the decoder instance
+# carries from one decode_line call to the next.  Oracle: vf/term.py Decoder on the same bytes.
+FD_OPEN_ST = [(p_, u) for p_ in ("", "id=1", "id=2", "k=v") for u in (U1, U2)]
+FD_OPEN_BEL = [("", U1), ("", U2), ("id=1", U2)]
+
+
+def _fd_menu(level):
+    """segments as strings; level 'full' | 'mid' | 'small'"""
+    if level == "full":
+        opens = [""] + [_osc8(p_, u) for p_, u in FD_OPEN_ST] + [_osc8(p_, u, BEL) for p_, u in FD_OPEN_BEL]
+        inners = ["x", "x\ny", "x\x1b[1my", "x\x1b[0my"]
+        closes = ["", _osc8("", ""), _osc8("", "", BEL), _osc8("id=1", "")]
+        seps = ["", "\n", "z\n"]
+    elif level == "mid":
+        opens = [""] + [_osc8(p_, u) for p_, u in FD_OPEN_ST] + [_osc8(p_, u, BEL) for p_, u in FD_OPEN_BEL]
+        inners = ["x", "x\ny", "x\x1b[0my"]
+        closes = ["", _osc8("", ""), _osc8("", "", BEL)]
+        seps = ["", "\n"]
+    elif level == "small3":
+        opens = ["", _osc8("", U1), _osc8("", U2), _osc8("id=1", U1), _osc8("id=1", U2)]
+        inners = ["x", "x\ny"]
+        closes = ["", _osc8("", "")]
+        seps = ["", "\n"]
+    else:
+        opens = ["", _osc8("", U1), _osc8("", U2), _osc8("id=1", U2)]
+        inners = ["x"]
+        closes = ["", _osc8("", "")]
+        seps = ["", "\n"]
+    return [o + i + c + z for o in opens for i in inners for c in closes for z in seps]
+
+
+def _fd_levels(tier):
+    """(sub, segment count, menu level)"""
+    if tier == "quick":
+        return {"F1": (1, "full"), "F2": (2, "mid"), "F3": (3, "small")}
+    return {"F1": (1, "full"), "F2": (2, "full"), "F3": (3, "small3")}
+
+
+def _fd_streams(sub, tier):
+    n, level = _fd_levels(tier)[sub]
+    menu = _fd_menu(level)
+    for tup in itertools.product(menu, repeat=n):
+        yield "".join(tup)
+
+
+def _strip_empty_tail(lines):
+    lines = list(lines)
+    while lines and not lines[-1]:
+        lines.pop()
+    return lines
+
+
+def check_foreign(stream, res):
+    from rich.ansi import AnsiDecoder
+    case = {"part": "fd", "stream": stream}
+    res.evaluations += 1
+    cells, controls, d = decode(stream)
+    want = _strip_empty_tail(_split_lines(cells))
+    bel = BEL in stream
+    verdict = "ok"
+    try:
+        dec = AnsiDecoder()
+        got = _strip_empty_tail([_rich_cells(t) for t in dec.decode(stream)])
+    except Exception as e:
+        res.violate(_crash_key(e, "ansi.py"), case, "decoding %r: %r" % (stream, e))
+        verdict = "crash"
+        got = None
+    if got is not None:
+        err = _diff_lines(got, want)
+        if err:
+            clause = err[0]
+            if clause == "link":
+                # which way: find the first differing character again
+                for g, w in zip(got, want):
+                    hit = [(a[1][3], b[1][3]) for a, b in zip(g, w) if a[1] != b[1]]
+                    if hit:
+                        clause = _link_clause(*hit[0])
+                        break
+            if bel and (clause in ("chars", "line-count") or
+                        any(BEL in str(x) or ESC in str(x) for ln in got for c, v in ln for x in (c, v[3]))):
+                # the BEL-terminated sequence itself was not recognised (payload shown as text / swallowed)
+                clause = "osc-bel-unrecognised"
+            key = "foreign/decoder/" + clause
+            res.violate(key, case, "one AnsiDecoder on %r: %s (expected = vf/term.py on the same bytes)"
+                        % (stream, err[1].replace("printed", "terminal")))
+            verdict = clause
+    nopen = stream.count(ESC + "]8;") - stream.count(ESC + "]8;;" + ST) - stream.count(ESC + "]8;;" + BEL) \
+        - stream.count(ESC + "]8;id=1;" + ST)
+    links = set(v[3] for ln in want for _, v in ln)
+    res.sig(("fd", min(nopen, 3), len(links), bel, min(len(want), 4), ESC + "[0m" in stream, d.link is not None, verdict),
+            nontrivial=nopen > 0)
+
+
+def _part_fd(sh, tier, res):
+    for idx, stream in enumerate(_fd_streams(sh["sub"], tier)):
+        if idx % sh["n"] != sh["i"]:
+            continue
+        if idx % 512 == sh["i"] and deadline_passed():
+            res.capped = True
+            break
+        check_foreign(stream, res)
+        if idx % 9973 == 0:
+            res.sample({"part": "fd", "stream": stream})
+
+
 # =========================================================================== protocol
 def plan(tier, seed):
     shards = []
     n1 = {"quick": {"R1": 4, "R2": 12, "RB": 6, "R3": 6}, "thorough": {"R1": 8, "R2": 32, "RB": 16, "R3": 32}}[tier]
     for sub, n in n1.items():
         shards += [{"part": "rt", "sub": sub, "i": i, "n": n} for i in range(n)]
+    nfd = {"quick": {"F1": 1, "F2": 8, "F3": 2}, "thorough": {"F1": 1, "F2": 32, "F3": 8}}[tier]
+    for sub, n in nfd.items():
+        shards += [{"part": "fd", "sub": sub, "i": i, "n": n} for i in range(n)]
     for spec in stream_sets(tier):
         nstreams = sum(1 for _ in streams(spec[2], spec[3], spec[4]))
         n = min(nstreams, 48 if tier == "quick" else 160)
@@ -880,6 +1030,8 @@ def run_shard(sh, tier, seed):
     res = Result()
     if sh["part"] == "rt":
         _part_rt(sh, tier, res)
+    elif sh["part"] == "fd":
+        _part_fd(sh, tier, res)
     else:
         _part_fp(sh, tier, res)
     return res
@@ -928,6 +1080,8 @@ def replay(case):
             c["base"] = _norm_sd(case["base"])
         from rich.ansi import AnsiDecoder
         check_line(c, res, AnsiDecoder())
+    elif case.get("part") == "fd":
+        check_foreign(case["stream"], res)
     else:
         check_history(case["variant"], [list(op) for op in case["ops"]], res)
     return [(k, v[2]) for k, v in sorted(res.violations.items())]
